@@ -62,8 +62,87 @@ def exponents(quick):
     return ex
 
 
+PROGRAMS = [
+    ("init_reassign", "c = 1\ns = Sin(c)\nc = 2\nx = 0\nz = 0\ny = 0\nwhile true:\n    x = DiscreteUniform(1, 2)\n    y = Cos(x)\n    z = z + y\n    c = c + 1\nend\n",
+     ["s", "z", "y", "x*y"]),
+    ("exp_bernoulli", "x = 0\ne = 1\nw = 0\nwhile true:\n    x = Bernoulli(1/2)\n    e = Exp(x)\n    w = w + e*x + e\nend\n", ["e", "w", "e*x", "e**2"]),
+    ("sin_cos_product", "x = 0\ns = 0\nc = 1\ny = 0\nwhile true:\n    x = DiscreteUniform(0, 2)\n    s = Sin(x)\n    c = Cos(x)\n    y = y + s*c + x*s\nend\n",
+     ["s", "c", "y", "s*c", "x*c"]),
+    ("constants", "a = Exp(2)\nb = Cos(0)\nd = Sin(1/2)\nx = 0\nwhile true:\n    k = Exp(-1)\n    x = x + a*k + b - d\nend\n", ["a", "x", "b", "d"]),
+    ("reference_chain", "x = 0\nu = 0\ns = 0\nt = 0\nwhile true:\n    x = Bernoulli(1/3)\n    u = x\n    s = Sin(u)\n    t = t + s + u*s\nend\n", ["s", "t", "u*s"]),
+    ("previous_value", "x = 1\ny = 0\nz = 0\nwhile true:\n    x = DiscreteUniform(1, 2)\n    z = z + y\n    y = Cos(x)\nend\n", ["y", "z", "y*x"]),
+    ("categorical_arg", "x = 0\ns = 0\nq = 0\nwhile true:\n    x = Categorical(1/2, 1/4, 1/4)\n    s = Sin(x)\n    q = q + s\nend\n", ["s", "q"]),
+]
+
+
+def b_moments_tol(ctx):
+    """closed forms that contain 20-digit roundings of transcendental values: compared with an enclosure"""
+    from .. import absyn, campaign as C
+    if ctx.res.get("stage"):
+        raise C.SkipTrace("refused")
+    P = ctx.srcP
+    for g, go in ctx.res.get("goals", {}).items():
+        if "values" not in go:
+            ctx.note("goal_exception")
+            continue
+        poly = absyn.mono_of(g)
+        if any(v not in P["vars"] for v, _ in poly[0][1]):
+            continue
+        for n, val in enumerate(go["values"][ctx.pi][:ctx.N + 1]):
+            x = F(val["q"]) if "q" in val else (F(val["approx"]) if "approx" in val else None)
+            if x is None:
+                ctx.note("tol_" + next(iter(val)))
+                continue
+            eps = (abs(x) + 1) * F(1, 10 ** 15)
+            ctx.claim(n, {"t": "momI", "pi": ctx.src, "poly": poly, "lo": x - eps, "hi": x + eps, "tag": g})
+
+
+def b_func_args(ctx):
+    """arguments of functional assignments stay inside the function tables given to the spec"""
+    from ..encode import FUNC_ARGS
+    P = ctx.srcP
+
+    def walk(stmts):
+        for s_ in stmts:
+            if s_[0] == "func" and isinstance(s_[3], str):
+                for n in range(ctx.N + 1):
+                    ctx.claim(n, {"t": "supp", "pi": ctx.src, "v": s_[3], "vals": list(FUNC_ARGS), "start": P["s0"].get(s_[3], 0),
+                                  "exempt": True, "tag": "table:" + s_[3]})
+            elif s_[0] == "if":
+                for b in s_[2]:
+                    walk(b)
+                walk(s_[3])
+    walk(P["init"])
+    walk(P["body"])
+
+
+def program_part(ctx_run, quick):
+    """whole programs with Sin / Cos / Exp assignments: the functions enter the spec as tables of 34-digit values"""
+    from .. import campaign as C
+    from ..driver import analysis_check
+    items = [{"id": "fprog-" + name, "text": text, "T": None, "goals": goals, "points": [{}], "origin": "functional program " + name}
+             for name, text, goals in PROGRAMS]
+    return items
+
+
 def main(tier, seed):
-    run = Run("C13", "model_checking", tier, seed)
+    from .. import campaign as C
+    from ..driver import analysis_check
+    holder = {}
+
+    def post(ctx):
+        return table_part(ctx["run"])
+    items = program_part(None, tier == "quick")
+    return analysis_check("C13", tier, seed, items=items, want=["parsed", "moments"],
+                          builders=[C.b_source, b_func_args, b_moments_tol], N=4, post=post, timeout=150,
+                          variants=[("", {}), ("-exact", {"exact_func_moments": True})],
+                          assumptions=["enclosures of sin, cos, exp at the support points come from mpmath (35 digits) and are trusted",
+                                       "default mode values may deviate by 1e-18 relative (documented 20-digit rounding), exact mode by 1e-30",
+                                       "only finitely supported X and constants; continuous X is not decided",
+                                       "program level: Sin/Cos/Exp enter the spec as tables of 34-digit rational values on half-integers; closed forms are compared with a 1e-15 relative enclosure"])
+
+
+def table_part(run):
     quick = run.tier == "quick"
     DS = dists(quick)
     EX = exponents(quick)
@@ -198,11 +277,8 @@ def main(tier, seed):
     ref_kinds = {}
     for subject, rec in refusals:
         ref_kinds[rec.get("exc")] = ref_kinds.get(rec.get("exc"), 0) + 1
-    coverage = {"states": distinct, "transitions": states, "traces_validated_against_impl": len(verdicts),
-                "samples": [{"subject": names[t], "claims": len(tr_by[t]["claims"])} for t in list(verdicts)[:4]],
-                "distributions": len(DS), "constants": len(consts), "exponent_triples": len(EX), "values_checked": nclaims,
-                "values_outside_enclosure": nfail, "existence_claims": nexists,
-                "refusals_of_existing_moments_not_judged_here": ref_kinds, "exhaustive": False}
-    return run.finish(coverage, ["enclosures of sin, cos, exp at the support points come from mpmath (35 digits) and are trusted",
-                                 "default mode values may deviate by 1e-18 relative (documented 20-digit rounding), exact mode by 1e-30",
-                                 "only finitely supported X and constants; continuous X is not decided"])
+    return {"func_states": distinct, "func_traces": len(verdicts),
+            "func_samples": [{"subject": names[t], "claims": len(tr_by[t]["claims"])} for t in list(verdicts)[:4]],
+            "distributions": len(DS), "constants": len(consts), "exponent_triples": len(EX), "values_checked": nclaims,
+            "values_outside_enclosure": nfail, "existence_claims": nexists,
+            "refusals_of_existing_moments_not_judged_here": ref_kinds}
